@@ -8,6 +8,7 @@
 package c16
 
 import (
+	"errors"
 	"bytes"
 	"encoding/json"
 	"fmt"
@@ -47,6 +48,13 @@ func callGlobal() *ugo.Function {
 	return &ugo.Function{Name: "CALL", ValueEx: func(c ugo.Call) (ugo.Object, error) {
 		if c.Len() < 1 {
 			return ugo.Undefined, ugo.ErrWrongNumArguments.NewError("want>=1 got=0")
+		}
+		if s, ok := c.Get(0).(ugo.String); ok {
+			// an embedder function that fails: with a plain Go error, or with a runtime error it built itself
+			if s == "rt" {
+				return ugo.Undefined, &ugo.RuntimeError{Err: &ugo.Error{Name: "EmbedderError", Message: "made in Go"}}
+			}
+			return ugo.Undefined, errors.New("plain go error")
 		}
 		args := make([]ugo.Object, 0, c.Len()-1)
 		for i := 1; i < c.Len(); i++ {
